@@ -160,6 +160,7 @@ func c09Gen(g *fw.GenCtx) []fw.Case {
 		cases = append(cases, fw.MkCase("big", c09Case{Big: 250}))
 	}
 	cases = append(cases, fw.MkCase("big", c09Case{Big: 90}))
+	cases = append(cases, fw.MkCase("big", c09Case{Big: 1500})) // beyond the 1000-slot channels of the listing queries
 	return cases
 }
 
@@ -552,6 +553,22 @@ func c09Big(idx *kvindex.KVIndex, pfx, docPfx string, n int) fw.Result {
 	if got != n {
 		return fw.ViolatedR("big:range-count", fmt.Sprintf("FieldTermNumberRange returned %d terms of %d", got, n), nil)
 	}
+	// the listing queries stream through 1000-slot channels
+	nTerms, nNumbers, nCounts := 0, 0, 0
+	for range idx.FieldTerms(pfx + "a") {
+		nTerms++
+	}
+	for range idx.FieldNumbers(pfx + "a") {
+		nNumbers++
+	}
+	for tc := range idx.FieldTermCounts(pfx + "a") {
+		if tc.Count == 1 {
+			nCounts++
+		}
+	}
+	if nTerms != n || nNumbers != n || nCounts != n {
+		return fw.ViolatedR("big:listing-count", fmt.Sprintf("over %d distinct numeric terms FieldTerms lists %d, FieldNumbers %d, FieldTermCounts %d with count 1", n, nTerms, nNumbers, nCounts), nil)
+	}
 	mn, mx := idx.FieldTermNumberMin(pfx+"a"), idx.FieldTermNumberMax(pfx+"a")
 	if mn != 0.25-float64(n)/2 || mx != float64(n-1)-float64(n)/2+0.25 {
 		return fw.ViolatedR("big:minmax", fmt.Sprintf("min/max %g %g", mn, mx), nil)
@@ -566,7 +583,7 @@ var _ = math.Inf
 func init() {
 	fw.Register(&fw.Property{
 		ID:   "C09",
-		Rule: "sequences over AddField/RemoveField (3 fields incl. a nested path), AddDoc (3 ids x 10 bodies, re-adding an id = replacement) and RemoveDoc, from three base states: exhaustive to depth 2 (quick) / 3 (thorough) plus 500 / 20000 random sequences of length 8-20; after EVERY step every public query (GetTermMatch for 11 values, FieldTerms, FieldTermCounts, FieldStringTermCounts, FieldNumbers, min, max, 12 numeric ranges) on every field is compared with a brute-force scan of the model's live documents; plus large cases with 90 / 250 distinct numeric terms. Terms cover strings incl. \"\" and numbers -1e10..1e10 incl. negatives, zero, fractions. Non-trivial = at least one live document under a registered field.",
+		Rule: "sequences over AddField/RemoveField (3 fields incl. a nested path), AddDoc (3 ids x 10 bodies, re-adding an id = replacement) and RemoveDoc, from three base states: exhaustive to depth 2 (quick) / 3 (thorough) plus 500 / 20000 random sequences of length 8-20; after EVERY step every public query (GetTermMatch for 11 values, FieldTerms, FieldTermCounts, FieldStringTermCounts, FieldNumbers, min, max, 12 numeric ranges) on every field is compared with a brute-force scan of the model's live documents; plus large cases with 90 / 250 / 1500 distinct numeric terms (range, listings, min, max). Terms cover strings incl. \"\" and numbers -1e10..1e10 incl. negatives, zero, fractions. Non-trivial = at least one live document under a registered field.",
 		Assumptions: []string{
 			"every sequence runs twice: queried after every operation, and queried only after the last one (queries recount invalidated term counts and would otherwise hide what later operations do with them)",
 			"range bounds include 0 and term values; a term equal to a bound is not judged (boundary inclusivity is unspecified)",
